@@ -119,6 +119,15 @@ def gen(seed):
             d = rng.choice(tests)
             plan.insert(0, C.fault_entry(d, rng.choice(C.test_phases(d)),
                                          {'a': 'chdir', 'to': '/'}))
+    if rng.random() < 0.2:
+        # the embedding process already has gc settings of its own before the run
+        cfg['pre_gc_debug'] = rng.sample(GCFLAGS, rng.randint(1, 2))
+        cfg['pre_gc_threshold'] = rng.choice([[701, 11, 11], [500, 5, 5]])
+    if cfg.get('profile') and tests and rng.random() < 0.3:
+        # a test that removes the directory the profiler writes its data to
+        d = rng.choice(tests)
+        plan.insert(0, C.fault_entry(d, rng.choice(C.test_phases(d)),
+                                     {'a': 'call', 'fn': 'rm_profile_dir'}))
     if 'warnings' not in cfg and rng.random() < 0.4:
         # the embedding interpreter was started with -W...: the runner adds no filter of its own
         cfg['warnoptions'] = rng.choice([['ignore::ImportWarning'], ['default'], ['error::BytesWarning']])
@@ -144,6 +153,10 @@ def snapshot():
         'warnings.showwarning': id(warnings.showwarning),
         'sys.stdin': id(sys.stdin),
     }
+    mon = getattr(sys, 'monitoring', None)
+    if mon is not None:
+        # (3.12: cProfile hooks in through sys.monitoring, sys.getprofile() stays None)
+        s['sys.monitoring.profiler'] = mon.get_tool(mon.PROFILER_ID)
     return s
 
 
@@ -185,12 +198,17 @@ def run(spec, ctx):
         warnings.simplefilter(e['action'], category=UserWarning)
         warnings.filterwarnings('ignore', category=ResourceWarning, message='vsim')
 
+    def rm_profile_dir(e):
+        import shutil
+        shutil.rmtree(os.path.join(ctx.scratch, 'prof'), ignore_errors=True)
+
     from .. import simrt
     orig_install = simrt.install
 
     def install(*a, **kw_):
         rt = orig_install(*a, **kw_)
-        rt.extra['calls'] = {'settrace_cycle': settrace_cycle, 'filterwarnings': filterwarnings}
+        rt.extra['calls'] = {'settrace_cycle': settrace_cycle, 'filterwarnings': filterwarnings,
+                             'rm_profile_dir': rm_profile_dir}
         return rt
     old_warnoptions = list(sys.warnoptions)
     # gc debug flags / cProfile print to the real stderr: keep the lane's stderr clean
@@ -202,6 +220,13 @@ def run(spec, ctx):
     simrt.install = install
     if cfg.get('warnoptions'):
         sys.warnoptions[:] = cfg['warnoptions']
+    pre = gc.get_debug(), gc.get_threshold()
+    if cfg.get('pre_gc_debug'):
+        flags = 0
+        for g in cfg['pre_gc_debug']:
+            flags |= getattr(gc, g)
+        gc.set_debug(flags)
+        gc.set_threshold(*cfg['pre_gc_threshold'])
     before = snapshot()
     try:
         res = core.execute(spec, args, run_kwargs=kw)
@@ -210,6 +235,8 @@ def run(spec, ctx):
         gc_was_enabled = gc.isenabled()
         simrt.install = orig_install
         sys.warnoptions[:] = old_warnoptions
+        gc.set_debug(pre[0])
+        gc.set_threshold(*pre[1])
     stdin_restored = sys.stdin is not None
     sys.stdin = old_stdin
     T = TR.Truth(m, res.trace)
@@ -232,7 +259,8 @@ def run(spec, ctx):
     # which exception ends the run is not C18's business (only the state afterwards is);
     # profiler/coverage/gc reports contain real timings: keep them out of the digest
     res.out = [(t, x) for t, x in res.out
-               if not (cfg.get('profile') or cfg.get('coverage') or cfg.get('gcopt'))]
+               if not (cfg.get('profile') or cfg.get('coverage') or cfg.get('gcopt')
+                       or cfg.get('pre_gc_debug'))]
     if res.raised:
         res.raised = (res.raised[0], '', '')
     out = _ws.std_out(spec, ctx, [res], viols,
